@@ -165,7 +165,7 @@ struct HttpSinkFile : public HttpSink
 	}
 };
 
-HttpMessage::HttpMessage() : _proto("HTTP/1.1"), _socket(NULL), _fileBody(false), _chunked(false), _ownChunks(false), _endByClose(false)
+HttpMessage::HttpMessage() : _proto("HTTP/1.1"), _socket(NULL), _fileBody(false), _chunked(false), _ownChunks(false), _endByClose(false), _bodySent(false)
 {
 	_sink = new HttpSinkArray(_body);
 	_headersSent = false;
@@ -507,6 +507,7 @@ HttpResponse Http::request(HttpRequest& request)
 		title << ':' << url.port;
 	request._command = title;
 	request._headersSent = false; // a request object used again sends its request line and headers again
+	request._bodySent = false;    // and its body
 
 	if (!request.write())
 	{
@@ -801,6 +802,8 @@ bool HttpMessage::sendHeaders()
 
 bool HttpMessage::write()
 {
+	if (_bodySent) // the owner has called write() itself: the body is not written a second time
+		return true;
 	if (_fileBody)
 		return putFile(_body);
 	bool whole = !_headersSent || _ownChunks; // headers and body are written here, or the chunks are the library's own: the message also ends here
@@ -811,6 +814,7 @@ bool HttpMessage::write()
 	if (_endByClose)
 		_socket->close();
 	_endByClose = false;
+	_bodySent = true;
 	return ok;
 }
 
@@ -879,6 +883,8 @@ void HttpMessage::writeFile(const String& path, int begin, int end)
 
 bool HttpMessage::putFile(const String& path, int begin, int end)
 {
+	if (_bodySent) // the owner has called write() itself: the file is not written a second time
+		return true;
 	bool whole = !_headersSent || _ownChunks; // headers and body are written here, or the chunks are the library's own: a chunked message also ends here
 	File file(path);
 	if (!file.exists())
@@ -945,6 +951,7 @@ bool HttpMessage::putFile(const String& path, int begin, int end)
 	if (_endByClose)
 		_socket->close();
 	_endByClose = false;
+	_bodySent = true;
 
 	return true;
 }
